@@ -157,6 +157,8 @@ def add_to_search_space(vz, root, p, default=None):
     root.add_int_param(p['name'], p['lo'], p['hi'], scale_type=sc, **kw)
   elif p['t'] == 'S':
     root.add_discrete_param(p['name'], list(p['vals']), scale_type=sc, **kw)
+  elif p.get('bool'):
+    root.add_bool_param(p['name'], **kw)          # CATEGORICAL ['False', 'True'] with external type BOOLEAN
   else:
     root.add_categorical_param(p['name'], list(p['cats']), **kw)
 
@@ -214,7 +216,7 @@ def canon_value(p, v):
   if hasattr(v, 'item') and not isinstance(v, (str, bytes)):
     v = v.item()
   if isinstance(v, bool):
-    return v
+    return ('True' if v else 'False') if p.get('bool') else v
   if p['t'] == 'I' and isinstance(v, float) and v.is_integer() and abs(v) < 2 ** 63:
     return int(v)
   if p['t'] in 'DS' and isinstance(v, int):
